@@ -422,7 +422,29 @@ func TestRepeatPrograms(t *testing.T) {
 	rapid.Check(t, func(t *rapid.T) {
 		var c progCase
 		labels := []string{}
-		switch rapid.IntRange(0, 12).Draw(t, "kind") {
+		switch rapid.IntRange(0, 13).Draw(t, "kind") {
+		case 13: // import graphs that hold a cycle somewhere behind the main program (reached
+			// directly or through modules that are not on it): what is reported, and where, is the
+			// same on every run
+			n := rapid.IntRange(2, 5).Draw(t, "nmods")
+			names := []string{"甲", "乙", "丙", "丁", "戊"}[:n]
+			c.Modules = map[string]string{}
+			for i, nm := range names {
+				var b strings.Builder
+				// a chain towards the end, the last module closes a cycle onto a drawn earlier one
+				if i+1 < n {
+					b.WriteString("导入“" + names[i+1] + "”\n")
+				} else {
+					b.WriteString("导入“" + names[rapid.IntRange(0, n-1).Draw(t, "back")] + "”\n")
+				}
+				if rapid.IntRange(0, 2).Draw(t, "extra") == 0 {
+					b.WriteString("导入“" + names[rapid.IntRange(0, n-1).Draw(t, "extra-to")] + "”\n")
+				}
+				fmt.Fprintf(&b, "（显示：“body-%s”）\n如何%s法？\n    输出%d\n", nm, nm, i)
+				c.Modules[nm] = b.String()
+			}
+			c.Src = "导入“甲”\n（显示：“main”）\n输出（甲法）"
+			labels = append(labels, "import-cycle-behind-main")
 		case 11, 12: // errors whose message names ONE of several offending entries of a dictionary:
 			// which one is named is the same on every run (generation of JSON from values
 			// without JSON form, comparison / search with values that cannot be compared)
